@@ -1,6 +1,6 @@
 #!/usr/bin/env python3
 """Development matrix (not a registered command): every stored variant of the tree x every check.
-  R*  refactors/      behaviour-preserving  -> every check must stay silent (exit 0)
+  R*/Q*  refactors/      behaviour-preserving  -> every check must stay silent (exit 0)
   S*  seeded/         property-breaking     -> the targeted property's check must fire (exit 1)
   H*  selftest/Cxx/   hand-written mutants  -> the check of the mutant's property must fire
   V*  selftest/regress reverts of repairs   -> the listed properties' checks must fire
@@ -14,7 +14,7 @@ PROPS = ["C%02d" % i for i in range(1, 21)]
 
 def variants():
     out = []
-    for d in sorted(glob.glob(os.path.join(VERIF, "refactors", "R*"))):
+    for d in sorted(glob.glob(os.path.join(VERIF, "refactors", "[RQ]*-*"))):
         m = json.load(open(os.path.join(d, "meta.json")))
         if m.get("exclude"):
             continue
